@@ -27,6 +27,8 @@ type World struct {
 	ExternalPolicy func(full string) CallKind
 	Library        map[string]LibModel
 
+	FSStable bool // dynamic calls cannot reach a file-system writer
+	FSWriters []string
 	mod     map[*ssa.Function]*modInfo
 	allFns  []*ssa.Function
 	impls   map[string][]*ssa.Function
@@ -267,9 +269,16 @@ func (w *World) noteCallee(mi *modInfo, calls map[*ssa.Function][]*ssa.Function,
 	if g.Origin() != nil {
 		full = g.Origin().String()
 	}
-	if lm, ok := w.Library[full]; ok {
+	lm, ok := w.Library[full]
+	if !ok {
+		lm, ok = defaultLibrary[full]
+	}
+	if ok {
 		if lm.Event {
 			mi.trace = true
+		}
+		for _, k := range lm.ModKeys {
+			mi.keys[k] = true
 		}
 		return
 	}
